@@ -377,7 +377,10 @@ class ProcessRunner(Runner, ABC):
         # the completed tasks are on the queue by now.
         self._consume_log_queue()
         for future in done:
-            task = self.future_to_task[future]
+            # Forget the future before yielding its outcome, so that it
+            # is never yielded a second time if the consumer of this
+            # generator is interrupted.
+            task = self.future_to_task.pop(future)
             if future.cancelled:
                 continue
             try:
@@ -387,11 +390,6 @@ class ProcessRunner(Runner, ABC):
             else:
                 self.results_map[task] = task_result
                 yield (task, task_result.meta)
-        self.future_to_task = {
-            future: self.future_to_task[future]
-            for future in self.future_to_task
-            if future not in done
-        }
 
     def cancel(self) -> None:
         self.executor.cancel()
